@@ -333,6 +333,13 @@ impl Property for C10 {
             main.header.bound = tmp.header.bound;
             main.insts.extend(tmp.insts);
         }
+        if rng.chance(1, 250) {
+            // dense ids across power-of-two boundaries, each boundary id typed 64-bit and consumed
+            let mut tmp = Stream { header: main.header.clone(), insts: vec![] };
+            crate::producer::plant_dense_ids(rng, &mut tmp);
+            main.header.bound = tmp.header.bound;
+            main.insts.extend(tmp.insts);
+        }
         let other = gen_history(rng, 1, Some(&main));
         let faults = if rng.chance(1, 4) {
             // literal truncation: drop an operand word / cut inside the stream
@@ -584,7 +591,7 @@ impl Property for C10 {
         Meta {
             level: "exploration",
             rule: "each run is a seeded history of 3-16 int/float type declarations (widths 8/16/32/64 and 0,1,7,24,33,48,63,65,128,2^31), value definitions carrying types through result types, and OpConstant/OpSpecConstant/OpSwitch consumers on declared, undeclared and forward-declared ids (ids unique), optionally with one literal-truncation fault; it is parsed alone (judged against the reference type context) and under one of four schedules involving a second binary that declares the same ids with other widths (after it, nested inside its k-th callback, it nested inside the history's k-th callback, one consumer reused); abstract trace = (faults, outcome class, per consumer (width class, opcode), schedule); non-trivial = >= 3 instructions and >= 1 literal consumer delivered",
-            lanes: "float declarations with the optional FPEncoding operand; rare giant histories (all 363 distinct int/float types with the 64-bit float last; 65k+ tracked ids before a 64-bit type, value, literals and switch)",
+            lanes: "float declarations with the optional FPEncoding operand; dense ids 1..300/4200/66000 all typed 64-bit with a consumer at every 2^k-1, 2^k, 2^k+1 (1/250 runs); value definitions by any of the value-defining opcodes; bystander instructions (capabilities, extensions, functions, labels, ...) in between; rare giant histories (all 363 distinct int/float types with the 64-bit float last; 65k+ tracked ids before a 64-bit type, value, literals and switch)",
             triple_measure: "(literal width class 1/2/unsupported, consumer opcode, schedule)",
             item_measure: "opcodes delivered and matched",
             assumptions: &[
